@@ -92,6 +92,7 @@ class Unit:
         self.write_enable = False
         self.freeze_dtr0 = False          # fault: DTR0 does not advance
         self.freeze_after = set()         # fault: DTR0 does not advance after these data writes (by index)
+        self.skip_after = set()           # fault: DTR0 advances twice after these data writes (by index)
         self.answer_faults = {}           # memory write count -> "no" | "other" | "garble"
         self.mem_writes = 0
         self.garble_next = False
@@ -128,6 +129,8 @@ class Unit:
             value = (value ^ 0x5A) & 0xFF
         stored = b.write(self.dtr0, value)
         if not stuck:
+            self._bump_dtr0()
+        if f is None and (self.mem_writes - 1) in self.skip_after and not (b.number != 0 and self.dtr0 <= 3):
             self._bump_dtr0()
         if not reply or not stored:
             return None
